@@ -147,7 +147,7 @@ def regen(core_out, prof_out):
     r = sh([sys.executable, os.path.join(VERIF, 'tools', 'translate.py'), core_out, prof_out, DUMP, GEN], check=False)
     if r.returncode != 0:
         raise RuntimeError('translator failed: ' + r.stdout)
-    spec = sh([sys.executable, os.path.join(VERIF, 'tools', 'ucd_spec.py'), REPO, GEN], check=False)
+    spec = sh([sys.executable, os.path.join(VERIF, 'tools', 'ucd_spec.py'), os.path.join(VERIF, 'reference'), GEN], check=False)
     if spec.returncode != 0:
         raise RuntimeError('ucd_spec failed: ' + spec.stdout)
     return (r.stdout.strip() + ' ' + spec.stdout.strip()).strip()
@@ -475,7 +475,23 @@ def main(argv):
             print(proof['build_log'])
             log('model driver does not build: cannot run the correspondence')
             return finish(ctx, mod, proof, None, t0)
-        corr = mod.correspondence(ctx)
+        try:
+            corr = mod.correspondence(ctx)
+        except Exception as e:   # the correspondence run itself broke (e.g. the harness crashed): not shown to hold
+            import traceback
+            tb = traceback.format_exc()
+            print(tb[-2000:])
+            path = write_replay(pid, {'property': pid, 'kind': 'correspondence-run-failure', 'error': str(e)[-2000:], 'traceback': tb[-3000:]})
+            print(f'VIOLATION property={pid} replay={path} no-failing-input-found')
+            corr = Corr()
+            corr.rule = 'correspondence run failed: ' + str(e)[:300]
+            corr.evaluations = 1
+            corr.nontrivial = {1, 2}
+            corr.samples = [str(e)[:300]]
+            proof = dict(proof)
+            proof['failed'] = proof['failed'] + ['<correspondence run failed>']
+            finish(ctx, mod, proof, corr, t0, already_reported=True)
+            return 1
         return finish(ctx, mod, proof, corr, t0)
 
 
@@ -510,9 +526,9 @@ class Corr:
         self.histogram[key] = self.histogram.get(key, 0) + n
 
 
-def finish(ctx, mod, proof, corr, t0):
+def finish(ctx, mod, proof, corr, t0, already_reported=False):
     pid = ctx.pid
-    violations = []
+    violations = ['<reported>'] if already_reported else []
     # proof obligations
     proof_broken = bool(proof['failed']) or bool(proof['bad_axioms']) or bool(proof.get('forbidden'))
     n_obl = len(proof['theorems'])
@@ -536,7 +552,7 @@ def finish(ctx, mod, proof, corr, t0):
                                       'more': [x[0] for x in corr.disagreements[1:20]]})
             print(f'VIOLATION property={pid} replay={path} no-failing-input-found')
             violations.append(path)
-    if proof_broken and not violations:
+    if proof_broken and not violations and not already_reported:
         path = write_replay(pid, {'property': pid, 'kind': 'proof-obligation', 'failed': proof['failed'], 'bad_axioms': proof['bad_axioms'],
                                   'forbidden': proof.get('forbidden', []), 'log': proof['build_log'][-3000:]})
         print(f'VIOLATION property={pid} replay={path} no-failing-input-found')
